@@ -62,6 +62,7 @@ type Step struct {
 	On   bool     `json:"on,omitempty"`
 	S    string   `json:"s,omitempty"`
 	Set  *SetSpec `json:"set,omitempty"`
+	OT   *OTSpec  `json:"ot,omitempty"`
 }
 
 // Scenario is a complete generated case.
